@@ -130,4 +130,75 @@ def hdrStep (siddIndex : Int) (l : List Box) (i : Int) (b : Box) (st : List Int 
     st.2.2 ++ [(siddIndex + 1, i + 1, b.rows, b.cols, blockOrWhole b.cols, blockOrWhole b.rows, st.2.1 + 1,
       if i = 0 then 0 else st.2.1, if i = 0 then 0 else prevRowsAt l i)])
 
+/-! ### attachment trees: absolute locations of the image segments of a collection from IDLVL / IALVL / ILOC
+      (`_get_collection_element_coordinate_limits`, sarpy/io/general/nitf.py) -/
+
+/-- `(IDLVL, IALVL, ILOC row offset, ILOC column offset, NROWS, NCOLS)` -/
+abbrev Hdr6 := Int × Int × Int × Int × Int × Int
+def Hdr6.idlvl (h : Hdr6) : Int := h.1
+def Hdr6.ialvl (h : Hdr6) : Int := h.2.1
+def Hdr6.iloc (h : Hdr6) : NpVec2 := (h.2.2.1, h.2.2.2.1)
+def Hdr6.nrows (h : Hdr6) : Int := h.2.2.2.2.1
+def Hdr6.ncols (h : Hdr6) : Int := h.2.2.2.2.2
+
+def boxAt (q : NpVec2) (nrows ncols : Int) : Box := (q.1, q.1 + nrows, q.2, q.2 + ncols)
+
+/-- one step of the `loc` loop on its state `(block_definition, loc)`: the segment sits at the location of the item it is attached to
+    (looked up by display level) plus its own ILOC; its own location is recorded under its display level -/
+def placeStep (st : List Box × PyDict2) (h : Hdr6) : List Box × PyDict2 :=
+  (st.1 ++ [boxAt (npAdd2 (dictGetD st.2 h.ialvl) h.iloc) h.nrows h.ncols], dictSet st.2 h.idlvl (npAdd2 (dictGetD st.2 h.ialvl) h.iloc))
+
+/-- the loop: the item the FIRST header is attached to is the origin -/
+def decodeTree (hs : List Hdr6) : List Box :=
+  match hs with
+  | [] => []
+  | h0 :: _ => (hs.foldl placeStep ([], [(h0.ialvl, (0, 0))])).1
+
+/-- every header is attached to the origin or to a header before it (then the loop never meets an unknown display level) -/
+def Attached : List Int → List Hdr6 → Prop
+  | _, [] => True
+  | keys, h :: rest => h.ialvl ∈ keys ∧ Attached (h.idlvl :: keys) rest
+
+/-- the writer side, for ANY attachment tree: `n` tiles, tile `k` at absolute location `pos k` with `size k` = (rows, columns), display
+    level `lvl k`; tile 0 is attached to `a0` (outside the collection: the origin), tile `k > 0` to tile `par k`; ILOC = own location
+    minus the location of the parent -/
+def encHdr (a0 : Int) (lvl : Nat → Int) (par : Nat → Nat) (pos size : Nat → NpVec2) (k : Nat) : Hdr6 :=
+  if k = 0 then (lvl 0, a0, (pos 0).1, (pos 0).2, (size 0).1, (size 0).2)
+  else (lvl k, lvl (par k), (pos k).1 - (pos (par k)).1, (pos k).2 - (pos (par k)).2, (size k).1, (size k).2)
+
+def encodeTree (a0 : Int) (lvl : Nat → Int) (par : Nat → Nat) (pos size : Nat → NpVec2) (n : Nat) : List Hdr6 :=
+  (List.range n).map (encHdr a0 lvl par pos size)
+
+/-! the rest of the function (hand model, tied by correspondence): order by display level, validity checks, renormalisation -/
+
+def insertByLvl (h : Hdr6) : List Hdr6 → List Hdr6
+  | [] => [h]
+  | x :: rest => if h.idlvl < x.idlvl then h :: x :: rest else x :: insertByLvl h rest
+
+/-- `sorted(image_headers, key=lambda x: x.IDLVL)` (stable) -/
+def sortByLvl (hs : List Hdr6) : List Hdr6 := hs.foldr insertByLvl []
+
+def distinctLvls : List Hdr6 → Bool
+  | [] => true
+  | h :: rest => !(rest.any (fun x => x.idlvl == h.idlvl)) && distinctLvls rest
+
+/-- the two checks: unique display levels; every header but the first is attached to a display level of the collection below its own -/
+def validCollection (hs : List Hdr6) : Bool :=
+  distinctLvls hs && (hs.drop 1).all (fun h => hs.any (fun x => x.idlvl == h.ialvl) && decide (h.ialvl < h.idlvl))
+
+def minOf (d : Int) : List Int → Int
+  | [] => d
+  | x :: rest => rest.foldl min x
+
+/-- `block_definition[:, 0:2] -= min_row; block_definition[:, 2:4] -= min_col` -/
+def normalizeBoxes (bs : List Box) : List Box :=
+  let mr := minOf 0 (bs.map (fun b => b.1))
+  let mc := minOf 0 (bs.map (fun b => b.2.2.1))
+  bs.map (fun b => (b.1 - mr, b.2.1 - mr, b.2.2.1 - mc, b.2.2.2 - mc))
+
+/-- `_get_collection_element_coordinate_limits(image_headers)`; `none` = ValueError -/
+def collectionLimits (hs : List Hdr6) : Option (List Box) :=
+  let s := sortByLvl hs
+  if validCollection s then some (normalizeBoxes (decodeTree s)) else none
+
 end Sarpy.Spec.L
